@@ -133,45 +133,77 @@ def site_meta(case):
     return sid, tid
 
 
-def classify_flow(case, facts, graph, rules, flow, ops):
+class Graphs(object):
+    """the reference dependence graph and its named weakenings (built on demand)"""
+
+    def __init__(self, facts):
+        self.facts = facts
+        self.cache = {}
+
+    def get(self, relax=()):
+        key = tuple(sorted(relax))
+        if key not in self.cache:
+            self.cache[key] = tg.DepGraph(self.facts, relax=key)
+        return self.cache[key]
+
+
+LADDER = [(("call",), "call-overtaint"), (("object",), "object-level-field-taint"),
+          (("call", "object"), "call-overtaint+object-level-field-taint")]
+
+
+def classify_flow(case, facts, graphs, rules, flow, ops):
     """-> list of (sig, what) for one reported flow."""
+    graph = graphs.get()
     j = tg.justify(facts, graph, rules, flow)
     out = []
     sop, top = ops.get(flow, ("?", "?"))
     if not j["source_rule"]:
-        out.append(((ID, "rule", "source", sop, j["source_relax"]),
-                    "reported source statement %s:%d (%s) matches no source rule; closest rule differs in: %s" % (
-                        flow[0], flow[1], sop, j["source_relax"])))
+        for fld in (j["source_relax"] or "?").split("+"):
+            out.append(((ID, "rule", "source", sop, fld),
+                        "reported source statement %s:%d (%s) matches no source rule; the closest rule disagrees in: %s" % (
+                            flow[0], flow[1], sop, j["source_relax"])))
     if not j["sink_rule"]:
-        out.append(((ID, "rule", "sink", top, j["sink_relax"]),
-                    "reported sink statement %s:%d (%s) matches no sink rule; closest rule differs in: %s" % (
-                        flow[2], flow[3], top, j["sink_relax"])))
+        for fld in (j["sink_relax"] or "?").split("+"):
+            out.append(((ID, "rule", "sink", top, fld),
+                        "reported sink statement %s:%d (%s) matches no sink rule; the closest rule disagrees in: %s" % (
+                            flow[2], flow[3], top, j["sink_relax"])))
     if j["source_rule"] and j["sink_rule"] and not j["dependence"]:
-        sid, tid = site_meta(case)
-        s, t = sid.get((flow[0], flow[1])), tid.get((flow[2], flow[3]))
-        if s is None or t is None:
-            cls = "undeclared-site"
-        elif s["chain"] != t["chain"]:
-            cls = "cross-chain"
-        else:
-            cls = t["ending"]
-        sub = "other-operand" if j["other_operand"] else "no-operand"
-        # would the designated operand of a rule whose unit_name / line_num / lang excludes this statement justify it?
-        tsite = (flow[2], flow[3])
-        seeds = set()
-        for r in rules["source"]:
-            how = tg.source_match(facts, r, (flow[0], flow[1]))
-            if how is not None:
-                seeds |= graph.source_seeds((flow[0], flow[1]), how)
-        reach = graph.closure(seeds)
+        ssite, tsite = (flow[0], flow[1]), (flow[2], flow[3])
+
+        def reach_of(g):
+            seeds = set()
+            for r in rules["source"]:
+                how = tg.source_match(facts, r, ssite)
+                if how is not None:
+                    seeds |= g.source_seeds(ssite, how)
+            return g.closure(seeds)
+        why = None
+        # (a) the operand of a rule whose unit_name / line_num / lang excludes this statement
+        reach = reach_of(graph)
         for r in rules["sink"]:
             if tg.sink_match(facts, r, tsite) is None:
                 o = tg.sink_match(facts, r, tsite, ignore=("unit_name", "line_num", "lang"))
                 if o and any(graph.operand_states(x) & reach for x in o):
-                    sub = "operand-of-excluded-rule"
-        out.append(((ID, "dependence", cls, sub),
+                    why = "operand-of-excluded-rule"
+        # (b) which named weakening of the reference reading explains the report
+        if why is None:
+            for relax, name in LADDER:
+                g = graphs.get(relax)
+                jj = tg.justify(facts, g, rules, flow)
+                if jj["dependence"]:
+                    why = name
+                    break
+        if why is None:
+            sid, tid = site_meta(case)
+            s, t = sid.get(ssite), tid.get(tsite)
+            where = "undeclared-site" if (s is None or t is None) else ("cross-chain" if s["chain"] != t["chain"] else t["ending"])
+            why = "unexplained:" + where + (":other-operand" if j["other_operand"] else "")
+            if case.get("keep_from_code") and j["other_operand"]:
+                # only the shipped *_from_code.yaml rules distinguish this run from the others
+                why = "from-code-rules:other-operand"
+        out.append(((ID, "dependence", why),
                     "reported flow %s:%d -> %s:%d: the operand designated by the matching sink rules does not depend on the "
-                    "source statement even flow-insensitively (%s, %s)" % (flow[0], flow[1], flow[2], flow[3], cls, sub)))
+                    "source statement even flow-insensitively (%s)" % (flow[0], flow[1], flow[2], flow[3], why)))
     return out
 
 
@@ -180,7 +212,8 @@ def check_case(case):
     -> (discrepancies [(sig, what)], info)"""
     files = case["files"]
     facts = tg.Facts(files)
-    graph = tg.DepGraph(facts)
+    graphs = Graphs(facts)
+    graph = graphs.get()
     out = []
     info = {"flows": {}, "gt": None}
     runs = [("full", case["rules_full"])]
@@ -198,7 +231,7 @@ def check_case(case):
                 len(lr["flows"]), which, sorted(lr["flows"])[:3])))
             continue
         for flow in sorted(lr["flows"]):
-            out.extend(classify_flow(case, facts, graph, rules, flow, ops))
+            out.extend(classify_flow(case, facts, graphs, rules, flow, ops))
     if "small" in info["flows"]:
         lost = sorted(info["flows"]["small"] - info["flows"]["full"])
         if lost:
